@@ -13,7 +13,12 @@ namespace Mdsort.Props
 open Mdsort Mdsort.Model
 
 /-- The status table: 0/1 from the sticky error flag in maildir mode; with `-`: 75 iff an error
-occurred, else 1 iff a reject was executed, else 0 (constants regenerated from mdsort.c). -/
+occurred, else 1 iff a reject was executed, else 0 (constants regenerated from mdsort.c).
+
+(Audit au1: the first conjunct is how `mainP` ends - `finish st = (exitStatus env st, st)` on every path - and holds by
+unfolding; the content is the two regenerated constants and, through the correspondence run, that `main` of mdsort.c ends the
+same way.  WHICH events set `error` / `reject` is `C04_error_iff_partial`; that `reject` is set ONLY by an executed reject
+action ("1 only for a matched reject") is not a theorem of this file.) -/
 theorem C04_status_table (env : PEnv) (orc : EvalOracles) (ok : Bool) (conf : List ConfBlock) (files : Files) (input : Bytes)
     (w : World) (plan : Plan) :
     let r := (runPlan plan (mainP env orc ok conf files input) w 0 []).1
@@ -51,7 +56,11 @@ the trace is `tr`, for the message named `src`:
   nothing): allowed. -/
 
 /-- **Frame.**  Processing one message mentions, in its mutating calls, only the message's own name
-and names this run created itself - for every oracle of results and from every trace so far. -/
+and names this run created itself - for every oracle of results and from every trace so far.
+
+(Audit au1: `Framed` constrains NAMES, not (directory, name) pairs - the directory handle of `unlinkat` / `renameat` /
+`utimensat` is unconstrained, so an entry of the same name in ANOTHER directory is inside the frame.  The world-level
+frame with directories is `C01_message_no_loss`, second conjunct, for `runPlan`.) -/
 theorem C04_frame (env : PEnv) (orc : EvalOracles) (expr : Expr) (md : Maildir) (name : Bytes) (st : MainSt)
     (orcl : Nat → Call → Res) (i0 : Nat) (tr0 : List (Call × Res)) :
     ∀ i c r, tr0.length ≤ i → (runOracle orcl (processMessage env orc expr md name st) i0 tr0).2[i]? = some (c, r) →
@@ -147,7 +156,14 @@ theorem C04_walk_error_iff (env : PEnv) (orc : EvalOracles) (expr : Expr) (fuel 
   Proofs.walk_error_oracle_iff env orc expr fuel md st orcl i tr
 
 /-- **The whole run (`C04_error_iff`, with the per-message action failures kept as the error value of
-`matchesExec`).**  The error flag `main` derives its exit status from is set iff one of the causes
+`matchesExec`).**  (Audit au1: `Proofs.MainErr` / `PathsErr` / `WalkErr` / `msgError` are written as a mirror of the loops of
+`mainP`, re-running the sub-programs (`runO orcl (walk ...)`, `runO orcl (matchesExec ...)`) to obtain the state and call index
+of the next step; the theorem therefore says: the flag is the disjunction of the enumerated top-level causes and of the error
+values of the sub-programs, nothing is swallowed in between and nothing else sets it.  It does not by itself say which libc
+failures make `matchesExec` / `messageParseP` report an error - that is `C01_fault_reported` and the `All`-lemmas on the
+scripts.  Fuel: the walks inside are `walk .. (2n+8)` / `walk .. 64`; an oracle whose `readdir` keeps returning names makes the
+MODEL stop silently when the fuel is spent (no cause `WalkErr` for that), where mdsort would go on - the statement is about
+the model's truncated walk in that case, the conformance run reports the divergence.)  The error flag `main` derives its exit status from is set iff one of the causes
 `Proofs.MainErr` (Proofs/WorldFrameMain.lean) occurred in this run: the configuration file cannot be
 opened; the configuration is not valid; or - unless `-n` - for some block and some selected path of
 it (`Proofs.PathsErr`, `Proofs.BlocksErr`): the stdin spool cannot be set up, the path or path +
@@ -170,7 +186,9 @@ example :
 
 /-- **Isolation of the calls of a whole run in maildir mode** (`-` not given): every call is a
 `readdir` or satisfies the frame condition for the name the last `readdir` returned (between walks
-only the configuration file, `opendir` and `closedir` are used). -/
+only the configuration file, `opendir` and `closedir` are used).  (Audit au1: each walk inside `mainP` has fuel `2n+8`, `n` =
+registered files of the maildir; under an oracle that lists more entries than that the model's run is shorter than mdsort's.
+The walk-level statement `C04_isolation_calls` holds for EVERY fuel, so nothing is lost for the frame itself.) -/
 theorem C04_isolation_calls_main (env : PEnv) (orc : EvalOracles) (ok : Bool) (conf : List ConfBlock) (files : Files)
     (input : Bytes) (hm : env.stdinMode = false) (orcl : Nat → Call → Res) :
     ∀ i c r, (runOracle orcl (mainP env orc ok conf files input) 0 []).2[i]? = some (c, r) →
@@ -238,7 +256,8 @@ theorem C04_stdin_zero_means_stored (env : PEnv) (orc : EvalOracles) (conf : Lis
   Proofs.stdin_exit0 env orc conf files input expr w plan hm hs hc hin hfresh
 
 /-- In stdin mode the status is 75 iff an error occurred, else 1 iff a reject was executed, else 0 -
-as equivalences on the final loop state, for every configuration, input and fault plan. -/
+as equivalences on the final loop state, for every configuration, input and fault plan.  (Audit au1: a reading of
+`exitStatus` on the two flags of the final state - "a reject was executed" is the flag `reject`, not an event of the run.) -/
 theorem C04_stdin_status (env : PEnv) (orc : EvalOracles) (ok : Bool) (conf : List ConfBlock) (files : Files) (input : Bytes)
     (w : World) (plan : Plan) (hm : env.stdinMode = true) :
     let r := (runPlan plan (mainP env orc ok conf files input) w 0 []).1
@@ -542,6 +561,24 @@ theorem C04_command_failure_is_error (env : Env) (root : Msg) (lno : Nat) (argv 
   rw [Proofs.eval_command, hav]
   simp only [hrc, Proofs.execValue_outcome, Proofs.commandTri_outcome]
   rw [(Proofs.outcomeTri_error_iff _).2 h]
+
+/-- An environment whose command oracle is `exec()` on a child that exited with 127 (its `execvp` failed). -/
+def c04exCmdEnv : Env where
+  rx := fun _ _ => .nomatch
+  command := fun _ => Model.execValue true (.ok 7) (.ok (127 * 256))
+  isDir := fun _ => false
+  now := 0
+  strptime := fun _ => none
+  zoneName := fun _ => none
+  fileTime := fun _ => none
+  dryrun := false
+  path := []
+
+/-- Non-vacuity, all hypotheses at once (added by audit au1): `command "x"` in that environment evaluates to ERROR by the
+theorem. -/
+example : (eval c04exCmdEnv (parseMessage []) (.command 1 [[120]]) 0 (parseMessage []) { ml := [], flags := ⟨0, 0⟩ }).1 = .error := by
+  rw [C04_command_failure_is_error c04exCmdEnv (parseMessage []) 1 [[120]] [[120]] 0 (parseMessage []) { ml := [], flags := ⟨0, 0⟩ }
+    (by decide +kernel) true (.ok 7) (.ok (127 * 256)) rfl (.inr (by decide))]
 
 /-- Non-vacuity: the child's `execvp` failed (exit 127, wait status 127 * 256); `fork` failed. -/
 example :
